@@ -2013,7 +2013,236 @@ impl Checker {
         if placed > 0 {
             self.probes.hit("rounds_with_placements");
         }
-        let _ = obs;
+        self.check_priorities(world, prev, core, obs, step, out);
+    }
+
+    /// C15: the statement, literally, on one scheduling round inside the property's domain.
+    fn check_priorities(
+        &mut self,
+        world: &World,
+        prev: &CoreSnapshot,
+        core: &CoreSnapshot,
+        obs: &StepObs,
+        step: u64,
+        out: &mut Vec<Finding>,
+    ) {
+        if obs.scheduler != Some(tako::verif::SimSchedulerResult::Done) {
+            self.probes.hit("c15_round_not_optimal");
+            return;
+        }
+        let prio = |t: &tako::verif::TaskSnapshot| -> i64 {
+            format!("{}", t.user_priority).parse::<i64>().unwrap_or(0)
+        };
+        // ---- domain: the ready queue before the round
+        let ready: Vec<&tako::verif::TaskSnapshot> = prev
+            .tasks
+            .iter()
+            .filter(|t| matches!(t.state, TaskStateSnapshot::Waiting { unfinished_deps: 0 }))
+            .collect();
+        if ready.is_empty() {
+            return;
+        }
+        if prev.tasks.iter().any(|t| {
+            matches!(
+                t.state,
+                TaskStateSnapshot::Prefilled { .. } | TaskStateSnapshot::Retracting { .. }
+            )
+        }) {
+            self.probes.hit("c15_round_with_prefill_or_retract_skipped");
+            return;
+        }
+        let mut classes: BTreeSet<u32> = BTreeSet::new();
+        let mut levels: BTreeSet<i64> = BTreeSet::new();
+        for t in &ready {
+            let rqv = &prev.requests[t.resource_rq_id.as_num() as usize];
+            if rqv.requests().len() != 1 || rqv.requests()[0].is_multi_node() {
+                self.probes.hit("c15_round_outside_domain");
+                return;
+            }
+            classes.insert(t.resource_rq_id.as_num());
+            levels.insert(prio(t));
+        }
+        if levels.len() > 8 {
+            return;
+        }
+        let now_ms = world.now_ms.get();
+        struct W<'a> {
+            id: u32,
+            snap: &'a tako::verif::WorkerSnapshot,
+            free: Vec<u64>,
+            life_left_ms: Option<u64>,
+        }
+        let mut workers: Vec<W> = Vec::new();
+        for ws in &prev.workers {
+            let wid = ws.id.as_num();
+            if ws.stop_reason.is_some() || self.tainted_workers.contains(&wid) {
+                continue;
+            }
+            let WorkerAssignmentSnapshot::Sn { free, .. } = &ws.assignment else {
+                continue;
+            };
+            let life = world.workers.get(&wid).and_then(|w| {
+                w.time_limit_ms
+                    .map(|l| (w.start_ms + l).saturating_sub(now_ms))
+            });
+            workers.push(W {
+                id: wid,
+                snap: ws,
+                free: free.clone(),
+                life_left_ms: life,
+            });
+        }
+        if workers.is_empty() {
+            return;
+        }
+        self.probes.hit("c15_rounds_in_domain");
+        let amounts = |t: &tako::verif::TaskSnapshot, total: &[u64]| -> Vec<(usize, u64)> {
+            let rq = &prev.requests[t.resource_rq_id.as_num() as usize].requests()[0];
+            rq.entries()
+                .iter()
+                .map(|e| {
+                    let r = e.resource_id.as_num() as usize;
+                    (
+                        r,
+                        e.request
+                            .amount_or_none_if_all()
+                            .map(|a| a.total_fractions())
+                            .unwrap_or_else(|| total.get(r).copied().unwrap_or(0).max(1)),
+                    )
+                })
+                .collect()
+        };
+        let min_time_ms = |t: &tako::verif::TaskSnapshot| -> u64 {
+            prev.requests[t.resource_rq_id.as_num() as usize].requests()[0]
+                .min_time()
+                .as_millis() as u64
+        };
+        let uses_all = |t: &tako::verif::TaskSnapshot| -> bool {
+            prev.requests[t.resource_rq_id.as_num() as usize].requests()[0]
+                .entries()
+                .iter()
+                .any(|e| e.request.amount_or_none_if_all().is_none())
+        };
+        // capable by total resources and lifetime
+        let capable = |w: &W, t: &tako::verif::TaskSnapshot| -> bool {
+            amounts(t, &w.snap.resources)
+                .iter()
+                .all(|(r, a)| w.snap.resources.get(*r).copied().unwrap_or(0) >= *a)
+                && w.life_left_ms.is_none_or(|l| l >= min_time_ms(t))
+        };
+        let after: BTreeMap<TaskKey, &tako::verif::TaskSnapshot> =
+            core.tasks.iter().map(|t| (tkey(t.id), t)).collect();
+        // D: dispatched in this round, per worker; Q: still ready afterwards
+        let mut dispatched: BTreeMap<u32, Vec<&tako::verif::TaskSnapshot>> = BTreeMap::new();
+        let mut left: Vec<&tako::verif::TaskSnapshot> = Vec::new();
+        for t in &ready {
+            match after.get(&tkey(t.id)).map(|x| &x.state) {
+                Some(TaskStateSnapshot::Assigned { worker_id, .. }) => {
+                    dispatched.entry(worker_id.as_num()).or_default().push(t)
+                }
+                Some(TaskStateSnapshot::Waiting { unfinished_deps: 0 }) => left.push(t),
+                _ => {}
+            }
+        }
+        if dispatched.is_empty() || left.is_empty() {
+            return;
+        }
+        self.probes.hit("c15_rounds_with_dispatch_and_leftover");
+        let heterogeneous = workers
+            .iter()
+            .any(|w| w.snap.resources != workers[0].snap.resources);
+        let busy = workers.iter().any(|w| w.free != w.snap.resources);
+        for h in &left {
+            let ph = prio(h);
+            for w in &workers {
+                let Some(dw) = dispatched.get(&w.id) else {
+                    continue;
+                };
+                if !dw.iter().any(|l| prio(l) < ph) {
+                    continue;
+                }
+                if !capable(w, h)
+                    || w
+                        .snap
+                        .blocked_requests
+                        .contains(&(h.resource_rq_id, 0.into()))
+                {
+                    continue;
+                }
+                // free before the round minus what tasks of priority >= h's take there
+                let mut free = w.free.clone();
+                let mut all_blocked = false;
+                for d in dw.iter().filter(|d| prio(d) >= ph) {
+                    for (r, a) in amounts(d, &w.snap.resources) {
+                        if r < free.len() {
+                            free[r] = free[r].saturating_sub(a);
+                        }
+                    }
+                    if uses_all(d) {
+                        all_blocked = true;
+                    }
+                }
+                let fits = !all_blocked
+                    && amounts(h, &w.snap.resources).iter().all(|(r, a)| {
+                        let f = free.get(*r).copied().unwrap_or(0);
+                        if uses_all(h) {
+                            // `all` needs the whole resource
+                            f >= *a && w.free.get(*r) == w.snap.resources.get(*r)
+                        } else {
+                            f >= *a
+                        }
+                    });
+                if !fits {
+                    continue;
+                }
+                // the stated exception: another worker could run h but is too busy now
+                let excused = workers.iter().any(|o| {
+                    o.id != w.id
+                        && capable(o, h)
+                        && !amounts(h, &o.snap.resources)
+                            .iter()
+                            .all(|(r, a)| o.free.get(*r).copied().unwrap_or(0) >= *a)
+                });
+                if excused {
+                    self.probes.hit("c15_excused_by_busy_capable_worker");
+                    continue;
+                }
+                let lower: Vec<_> = dw.iter().filter(|l| prio(l) < ph).map(|l| l.id).collect();
+                let pure = dw.iter().all(|l| prio(l) < ph);
+                let same_class = dw
+                    .iter()
+                    .any(|l| prio(l) < ph && l.resource_rq_id == h.resource_rq_id);
+                let _ = (heterogeneous, busy);
+                let any_all = uses_all(h) || dw.iter().any(|d| uses_all(d));
+                let key = format!(
+                    "w{}-c{}-l{}-{}-{}{}",
+                    workers.len().min(4),
+                    classes.len().min(4),
+                    levels.len().min(4),
+                    if pure { "pure" } else { "mixed" },
+                    if same_class { "sameclass" } else { "crossclass" },
+                    if any_all { "-all" } else { "" }
+                );
+                fnd(
+                    out,
+                    "C15",
+                    "lower-priority-dispatched-over-fitting-higher",
+                    key,
+                    format!(
+                        "round at step {step}: task {} (priority {ph}, request {}) stays ready although it fits on worker {} (free {:?}) once the lower-priority tasks {lower:?} dispatched there are left out; {} workers, {} request classes, {} priority levels",
+                        h.id,
+                        h.resource_rq_id,
+                        w.id,
+                        w.free,
+                        workers.len(),
+                        classes.len(),
+                        levels.len()
+                    ),
+                    step,
+                );
+                return;
+            }
+        }
     }
 
     fn check_obligations(
